@@ -64,7 +64,7 @@ func c32idOf(s string) int {
 	return 999
 }
 
-func c32tag(id int) string { return fmt.Sprintf("c32-repo/img-%d:v%d", id, id) }
+func (n *c32node) tag(id int) string { return fmt.Sprintf("c32-repo-%d/img-%d:v%d", n.caseSeq, id, id) }
 
 // ---- the backend: state shared by three views ----
 
@@ -318,6 +318,7 @@ func (m *c32replmgr) Find(query interface{}) ([]persistedretry.Task, error) { re
 // ---- one build-index node ----
 
 type c32node struct {
+	caseSeq  int
 	dir      string
 	bk       *c32backend
 	ss       *store.SimpleStore
@@ -360,6 +361,9 @@ func newC32node(dir string, writeThrough bool, maxRetries int, nsConfigured bool
 		return nil, err
 	}
 	n.db = db
+	// one connection (localdb sets MaxOpenConns(1)); durability of the scratch database is not needed
+	db.Exec("PRAGMA synchronous = OFF")
+	db.Exec("PRAGMA journal_mode = MEMORY")
 	ns := ".*"
 	if !nsConfigured {
 		ns = "^some-other-namespace/.*"
